@@ -139,9 +139,10 @@ pub fn play(mut story: Story, opts: &Options) -> anyhow::Result<()> {
                     if let Err(e) = story.choose_path_string(&path, true, None) {
                         if opts.json_output {
                             println!(
-                                "{{\"issues\": [\"Error diverting to '{}': {}\"]}}",
-                                path,
-                                e.to_string().replace('"', "\\\"")
+                                "{{\"issues\": [\"{}\"]}}",
+                                escape_json_string(&format!(
+                                    "Error diverting to '{path}': {e}"
+                                ))
                             );
                         } else {
                             eprintln!("<error diverting to '{path}': {e}>");
